@@ -31,8 +31,8 @@ invariants and prints one JSON record per case.  This module replays every recor
         nominal cell while the request gives the refined one; TensorMaps whose phases dictionary holds nominal
         cells while the reference is handed over as an explicit dzero_unitcell map (at construction / by add_map)
 
-Machine HSpec (configs Strain_hist_q/_hist_t [tlc -simulate, VERIF_SEED], Strain_map_t [exhaustive],
-Strain_map_asis [expected violation]) - HISTORIES on one object; law: every answer is the exact tensor of the CURRENT
+Machine HSpec (configs Strain_hist_q/_hist_t [tlc -simulate, VERIF_SEED], Strain_map_t [exhaustive, thorough],
+Strain_mapfail [exhaustive, both tiers], Strain_map_asis [expected violation]) - HISTORIES on one object; law: every answer is the exact tensor of the CURRENT
 state SEEN FROM THE REFERENCE GIVEN IN THE REQUEST - nothing else the objects carry, nothing asked before.  Each
 printed history is replayed on one real grain (+ one reference grain object, + one DeformationGradientTensor object)
 or one real TensorMap (see c10_hist.py): strain requests interleaved with set_ubi, new / re-oriented reference
@@ -45,6 +45,17 @@ assigned by setter / item / add_map, an explicit dzero_unitcell map handed over 
 no strain map is cached) next to nominal cells in the phases dictionary, reads of the other computed maps, on
 multi-phase maps with arbitrary phase-id dictionaries.  Grain histories are replayed a second time lifted onto the
 records of machine Spec (triclinic references, Pythagorean orientations, near-by cell scales).
+REQUESTS THAT RAISE (law: a request that raises leaves no trace; the object answers afterwards as if it had never been
+made): the histories contain strain requests the code cannot answer - a TensorMap built without a phase_ids map (what
+TensorMap.from_ubis / from_pbpmap hand out), with a phase_ids map of another shape, with a phases entry that is no
+unitcell object, or holding a malformed UBI map (flattened / None) assigned on the way: eps_sample / eps_crystal /
+eps_hydro / eps_devia / dzero_unitcell raise; then the map is completed (phase_ids by item / add_map, the phases entry,
+an explicit dzero_unitcell map, a proper UBI map) and read; grain.eps_* with a reference that is no cell (five
+parameters, None, degenerate), a singular reference grain, an m that is no multiple of 1/2; DeformationGradientTensor
+from a flattened ubi / None / a singular ub0 asked for m = -1, an existing one asked for such an m - followed by the
+ordinary requests.  Strain_mapfail.cfg enumerates every TensorMap history of 3 operations of this kind; those in which
+a request that raised is followed by one that is answered are all replayed.  Whether the code raises is counted, not
+judged (the property does not say so); the answers that follow are judged as always.
 
 Findings: TensorMap.clear_cache kept the eps maps (repaired in /repo by e29c99a), so after a new UBI map was assigned
 they still showed the old one (STALE_FINDING_ID): the model of the code as it was (Strain_map_asis.cfg) violates
@@ -687,10 +698,23 @@ def run_hist_spec(cfgname, behaviours=None, depth=None, timeout=1500, workers=No
 ACTIONS = ("PickRef", "PickStretch", "PickRot", "Deform", "Ref", "Lab")
 INVARIANTS = ("RefLatticeOK", "PolarOK", "RefIsSethHill", "RefSym", "LabIsRotatedRef", "Objectivity",
               "LabObjectivity", "ZeroIff", "FirstOrder")
-HINVARIANTS = ("HAnswersCurrent", "HPolarOK", "HDecorTracked", "MapExpCurrent", "MapRepairedCurrent", "DzeroByKey",
-               "DzSourceOK")
-HOPS = {"grain": ("new", "set_ubi", "newref", "reorient", "decorate", "touch", "ask", "dgt", "dask", "dread"),
-        "map": ("newmap", "read", "assign", "setdz", "touch")}
+HINVARIANTS = ("HAnswersCurrent", "HPolarOK", "HDecorTracked", "HNoTrace", "MapExpCurrent", "MapRepairedCurrent",
+               "MapNoTrace", "MapRaisesIffBlocked", "DzeroByKey", "DzSourceOK")
+HOPS = {"grain": ("new", "set_ubi", "newref", "reorient", "decorate", "touch", "ask", "dgt", "dask", "dread",
+                  "askfail", "dgtfail", "daskfail"),
+        "map": ("newmap", "read", "assign", "setdz", "touch", "readfail", "repair")}
+
+
+def answered_after_failure(rec):
+    """a history in which a request that raised is followed by one that is answered (the witnesses of the law
+    `a request that raises leaves no trace`)"""
+    seen = False
+    for o in rec["hist"]:
+        if o["op"] in ("readfail", "askfail", "dgtfail", "daskfail"):
+            seen = True
+        elif seen and o["op"] in ("read", "ask", "dask"):
+            return True
+    return False
 
 
 def judge(chk, recs, rp, oracles):
@@ -869,13 +893,20 @@ def history_vacuity(chk, hrecs, hr, tier):
               "ask_cell_while_grain_carries_the_same_cell", "ask_cell_while_reference_grain_object_carries_a_cell",
               "ask_grain_while_grain_carries_a_cell", "ask_grain_while_reference_grain_carries_another_cell",
               "dgt_from_grain_objects_carrying_another_cell", "ask_reference_grain_of_another_cell_scale",
-              "ask_cell_of_another_scale_than_the_previous_request", "ask_near_cell_half_percent")
+              "ask_cell_of_another_scale_than_the_previous_request", "ask_near_cell_half_percent",
+              "failed_requests_that_raised", "failed_eps_request_then_answered_request",
+              "failed_dgt_request_then_answered_dgt_request")
     need_m = ("reads", "reads_after_assignment_of_a_cached_map", "reads_derived_by_rotation", "assign_setter",
               "assign_item", "assign_add_map", "dict_not_0_to_n_in_order", "dict_multi_phase", "nz_above_1",
               "orphan_voxels", "masked_voxels", "voxels_nan_in_one_version",
               "touches", "explicit_dzero_map_at_construction", "explicit_dzero_map_set_by_item",
               "explicit_dzero_map_set_by_add_map", "explicit_dzero_map_set_after_a_read",
-              "reads_relative_to_explicit_map_with_other_cells_in_phases", "reads_relative_to_nominal_phase_cells")
+              "reads_relative_to_explicit_map_with_other_cells_in_phases", "reads_relative_to_nominal_phase_cells",
+              "failed_reads_that_raised", "failed_reads_no_phase_ids_map", "failed_reads_phase_ids_of_another_shape",
+              "failed_reads_phases_entry_no_unitcell", "failed_reads_malformed_UBI",
+              "failed_reads_of_dzero_unitcell_itself", "read_answered_after_failed_read_and_repair",
+              "read_answered_after_failed_read_and_explicit_dzero_map", "read_answered_after_failed_read_and_proper_UBI",
+              "read_answered_on_incomplete_map_with_explicit_dzero_map")
     for k_ in need_g:
         if not hr.gr.stats[k_]:
             raise common.MachineryError("vacuity: grain histories never exercised %s" % k_)
@@ -961,6 +992,20 @@ def run(tier, replay=None):
         chk.add_tlc("Strain_map_t exhaustive", hres3)
         hruns = [("Strain_hist_t", hres), ("Strain_hist_q", hres2), ("Strain_map_t", hres3)]
         hrecs = hrecs + hrecs2
+    # every history of 3 operations on a TensorMap that may be incomplete for a strain request (exhaustive): the
+    # histories in which a request that raised is followed by one that is answered are all replayed, of the others
+    # a seeded sample
+    fres, frecs = run_hist_spec("Strain_mapfail.cfg", timeout=900)
+    chk.add_tlc("Strain_mapfail exhaustive", fres)
+    hruns.append(("Strain_mapfail", fres))
+    wit = [r for r in frecs if answered_after_failure(r)]
+    if not wit:
+        raise common.MachineryError("Strain_mapfail: no history answers a request after one that raised")
+    rest = [r for r in frecs if not answered_after_failure(r)]
+    random.Random(common.seed() + 7).shuffle(rest)
+    frecs_kept = wit + rest[:(60 if tier == "quick" else 600)]
+    chk.notes["mapfail_histories"] = {"enumerated": len(frecs), "answered_after_a_request_that_raised": len(wit),
+                                      "replayed": len(frecs_kept)}
     for nm, r_ in hruns:
         if r_.violated:
             raise common.MachineryError("specification invariant violated in TLC (%s): %r\n%s" %
@@ -971,9 +1016,10 @@ def run(tier, replay=None):
     hrecs = H.thin_siblings(hrecs, random.Random(common.seed()), keep=2)
     if tier == "thorough":
         hrecs += hrecs3                 # every map history of the exhaustive run
+    hrecs += frecs_kept
     cex = asis_counterexample(chk)
     hrecs.append(cex)
-    chk.notes["histories_printed_by_tlc"] = nall + (len(hrecs3) if tier == "thorough" else 0)
+    chk.notes["histories_printed_by_tlc"] = nall + len(frecs) + (len(hrecs3) if tier == "thorough" else 0)
 
     if tier == "thorough":
         selftest(recs, hrecs)
@@ -1040,8 +1086,11 @@ def run(tier, replay=None):
                 "real object, grain histories once more lifted to the records of machine Spec; non-trivial = "
                 "stretch differs from the identity / every history" %
                 ("Strain_q.cfg" if tier == "quick" else "Strain_t.cfg + Strain_q.cfg",
-                 "Strain_hist_q.cfg, seeded; Strain_map_asis counterexample" if tier == "quick" else
-                 "Strain_hist_t.cfg + Strain_hist_q.cfg, seeded; Strain_map_t.cfg exhaustive; Strain_map_asis counterexample"))
+                 "Strain_hist_q.cfg, seeded; Strain_mapfail.cfg exhaustive: all histories answering after a request "
+                 "that raised + 60 others; Strain_map_asis counterexample" if tier == "quick" else
+                 "Strain_hist_t.cfg + Strain_hist_q.cfg, seeded; Strain_map_t.cfg exhaustive; Strain_mapfail.cfg "
+                 "exhaustive: all histories answering after a request that raised + 600 others; Strain_map_asis "
+                 "counterexample"))
     chk.exhaustive = False          # machine Spec is enumerated; the histories of machine HSpec are drawn (see rule)
     chk.assumptions = ["floating point accuracy away from the enumerated rational instances is not decided",
                        "m = 0 and the B matrix of the strained cell are finished in double precision from "
